@@ -240,6 +240,38 @@ def check_config(rep, prog):
                         "(w*h may wrap or exceed what Buf2::new_from/Inner::new can index)", config=cfg)
 
 
+DROPPING = ("::skip_while", "::skip", "::filter", "::step_by", "::nth", "::take_while", "::last", "::rev", "::filter_map", "::dedup")
+
+
+def raw_bytes_rule(rep, prog):
+    """B-raw: between the header and the pixel decoders the input byte stream is consumed
+    verbatim — no item-dropping adaptor is applied to the raw iterator in parse_pnm
+    (binary pixel data may contain any byte value, including whitespace and '#')."""
+    cfg = prog.config
+    pp = prog.body(ROOTS[0])
+    n = 0
+    for b in prog.family(pp.path):
+        sl = T.Slicer(b)
+        for bi, t in b.calls():
+            c = t.get("callee") or {}
+            name = c.get("path", "")
+            if not t["args"]:
+                continue
+            recv = T.strip(sl.operand(t["args"][0]), sites=True, refs=True)
+            raw = (recv[0] == "call" and recv[1].split(" => ")[0].endswith("IntoIterator::into_iter") and T.strip(recv[2][0], refs=True) == ("param", 1) and b is pp) \
+                or recv == ("upvar", "it")
+            if not raw:
+                continue
+            n += 1
+            drop = any(name.endswith(d) for d in DROPPING)
+            rep.inst("C13.B-raw", "%s applied to the raw input iterator at %s: %s" % (name.rsplit("::", 1)[-1], b.where(bi, None), "DROPS ITEMS" if drop else "verbatim"), config=cfg)
+            if drop:
+                rep.violate("C13.B-raw", "B-raw|%s" % name.rsplit("::", 1)[-1], b.where(bi, None),
+                            "the raw byte stream is passed through `%s` between the header and the pixel data: binary samples equal to the dropped values are lost"
+                            % name.rsplit("::", 1)[-1], config=cfg)
+    rep.floor("C13.B-raw.%s" % cfg, n, 4, "uses of the raw input iterator in parse_pnm")
+
+
 def format_rules(rep, prog):
     cfg = prog.config
     adt = prog.adt(FORMAT)
@@ -316,6 +348,7 @@ def check(rep, args):
     for cfg in configs:
         prog = facts.program(cfg)
         check_config(rep, prog)
+        raw_bytes_rule(rep, prog)
         format_rules(rep, prog)
     cov = {
         "explanation": "exhaustive panic-edge enumeration below parse_pnm/read_pnm with schema-based discharge (integer ranges propagate through "
@@ -323,7 +356,7 @@ def check(rep, args):
                        "header parser, decoder and writer",
         "evaluations": len(rep.instances),
         "distinct_nontrivial": len({i["what"] for i in rep.instances}),
-        "rules": ["P-total", "K-buf", "T-format"],
+        "rules": ["P-total", "K-buf", "B-raw", "T-format"],
     }
     return "other", cov, [
         "allocation failure is out of scope (a huge but representable header allocates lazily via take(count))",
